@@ -155,6 +155,13 @@ func (c *C) wrapClientErr(err error, serverName string) error {
 			},
 		}
 	default:
+		// On a TLS connection the *net.OpError arrives inside a wrapper of
+		// crypto/tls (which also says it is not temporary, meaning the
+		// connection): it is the same network failure.
+		var opErr *net.OpError
+		if errors.As(err, &opErr) {
+			return c.wrapClientErr(opErr, serverName)
+		}
 		return exterrors.WithFields(err, map[string]interface{}{
 			"remote_server": serverName,
 		})
